@@ -184,6 +184,12 @@ func C18(c *vf.Check) {
 		keys: fullKeys, lazyT: true,
 		rule:   "every program of the control-flow family with panic(\"boom\") at any statement position (programs without a panic statement are excluded) x every tape; the driver recovers around every MoveNext and records which call panicked with which value; values and effects delivered before must match; non-trivial as in C01",
 		assume: []string{"behaviour after the panic is unconstrained by the property: the history ends at the panicking call", "budget exhaustion (r.T / r.E beyond the event budget) is a second source of panics at arbitrary positions inside loops"}})
+	// pull loops over an iterator variable that holds no iterator: the nil dereference of `it.MoveNext()` belongs to
+	// the step that evaluates the loop condition
+	rule := c.Cov["rule"]
+	runFam(c, famSpec{id: "C18", fam: "nilit", name: "F_nilit", sizeQ: "3", sizeT: "4", tapeQ: "3", tapeT: "3", callsQ: 4, callsT: 5,
+		keys: fullKeys, rule: "F_nilit"})
+	c.Cov["rule"] = fmt.Sprint(rule) + "; the panic token is instantiated by a string, an error value, a pointer, a struct value or a genuine runtime error (chosen by the tape) and a recovered value counts as the original only on identity; plus F_nilit: every control-flow program up to MaxSize with at least one pull loop `for it.MoveNext() {..}` over an iterator variable that is nil x every tape: the nil dereference surfaces from the advance that evaluates the loop condition"
 }
 
 var _ = fmt.Sprint
